@@ -76,7 +76,7 @@ def playback(scratch, env, harness, budget=600):
     try:
         rc, o = sh(_guard(_base_cmd() + ["--harness", harness, "-Z", "concrete-playback", "--concrete-playback=inplace"]), cwd=scratch, timeout=budget, env=env)
     except subprocess.TimeoutExpired:
-        return {"error": "counterexample extraction timed out after %ds" % budget}
+        return {"error": "counterexample extraction timed out after %ds" % int(budget)}
     names = re.findall(r"^\s*- (kani_concrete_playback_\w+)\.?\s*$", o, re.M)
     names = [n.rstrip(".") for n in names]
     if not names:
@@ -179,11 +179,12 @@ def run(repo, harnesses, only_files=None, timeout=1800, jobs=8, extra_args=None,
         fails = re.findall(r"Failed Checks: (.*)", out)
         res["_failed_checks"] = fails
         # counterexamples of failed harnesses, replayed natively on the real code (at most 3, time-boxed)
-        n_pb = 0
+        n_pb = 0; t_pb = time.time(); total_pb = 900
         for h in harnesses:
-            if res[h].get("status") == "FAILED" and (want_playback is None or want_playback(h)) and n_pb < 3:
+            left = total_pb - (time.time() - t_pb)
+            if res[h].get("status") == "FAILED" and (want_playback is None or want_playback(h)) and n_pb < 3 and left > 60:
                 n_pb += 1
-                res[h]["playback"] = playback(scratch, env, h)
+                res[h]["playback"] = playback(scratch, env, h, budget=min(600, left))
         return res
     finally:
         shutil.rmtree(scratch, ignore_errors=True)
